@@ -476,6 +476,26 @@ def cmp_c10(payload, impl, model):
     return None
 
 
+def cmp_c10_stream(payload, impl, model):
+    a, b = impl.split(" ;; "), model.split(" ;; ")
+    pieces = payload.split()[2].split(",")
+    if len(a) != len(b):
+        return mism("piece count: %s vs %s" % (impl[:100], model[:100]))
+    for i, (x, y) in enumerate(zip(a, b)):
+        if x == "panic":
+            return viol("the pump panicked on document %d of the stream" % (i + 1))
+        if y == "rest":
+            return None      # a piece that is more than one document: the stream position is no longer the model's
+        if x != y:
+            if pieces[i].startswith("!"):
+                return viol("document %d of the stream is malformed but was transcoded: %s" % (i + 1, x[:100]))
+            return viol("document %d of a stream pumped through one decoder and one encoder (Reset before each document; %s) gave %s, alone it gives %s" % (
+                i + 1, "a malformed document came before" if any(q.startswith("!") for q in pieces[:i]) else "no malformed document before", x[:100], y[:100]))
+        if y == "err" and not pieces[i].startswith("!"):
+            return None      # failed somewhere inside: where the stream stands afterwards is not specified
+    return None
+
+
 PROPS["C10"] = dict(
     coq="Properties_C10",
     level_text="Proved in Coq (TranscodeProof.v) as compositions of the codec theorems over the lock-step pump model: JSON->CBOR is total on every text the reference reading accepts, consumes exactly one item and writes exactly the RFC 7049 encoding of the value tree read, which decodes to the same tokens up to CBOR's spelling of non-negative integers; it fails iff the reference reading fails. CBOR->JSON of a well-formed item in JSON's data model writes a text the decoder reads as the same tokens up to the documented normalisation (tags dropped, lengths -1, strings coerced to UTF-8, floats through the shortest-digits oracle), and fails iff the input is malformed or outside the data model (for any oracle). JSON->CBOR->JSON returns the same tokens for float-free valid-UTF-8 documents (unconditional) and for floats under the oracle hypothesis; CBOR->CBOR reproduces the tokens and is idempotent. Six natural over-strong variants are refuted by kernel-checked examples (non-string CBOR keys, the 32 MiB cap applying per chunk on reading but per item on re-reading, Int vs Uint, 1.0 -> 1). The library composition is tied to shared.TokenPump with both real codecs by the correspondence run (output bytes, consumed bytes), value preservation is re-checked independently in the harness, the slow route (Unmarshal into interface{} + Marshal) is compared by value, and the refmt CLI is run black-box on a sample and must produce the library's bytes.",
@@ -484,6 +504,8 @@ PROPS["C10"] = dict(
     trusted_base=TB_COMMON,
     assumptions=["common data model = string keys, no byte strings, no tags, finite floats, valid UTF-8"],
     suites=[
+        ("tstream", dict(cmp=cmp_c10_stream, nontrivial=lambda p, i, m: m.count("ok") >= 2, shrink=False,
+                         what="streams of 2-6 documents (JSON separated by a space; CBOR sequences) pumped through ONE decoder and ONE encoder with Reset before each, malformed documents that fail on their last byte in between (every JSON scanner: numbers, strings, escapes, literals; reserved CBOR heads, stray break): each document's output vs the model's pump of that document alone")),
         ("transcode", dict(cmp=cmp_c10, nontrivial=lambda p, i, m: i.startswith("ok") and len(p.split()[1]) >= 4, shrink=False,
                            what="shared.TokenPump{json.Decoder -> cbor.Encoder} and {cbor.Decoder -> json.Encoder} vs Pump.pump_j2c / pump_c2j (bytes written, bytes consumed); value check by independent decoding; slow route by value; refmt CLI on every 40th document")),
     ],
@@ -614,12 +636,21 @@ _INT_RANGES = {"i8": (-2**7, 2**7 - 1), "i16": (-2**15, 2**15 - 1), "i32": (-2**
                "(nm 1 i8)": (-2**7, 2**7 - 1), "(nm 2 u16)": (0, 2**16 - 1)}
 
 
+_NUMS = re.compile(r"\(n (-?\d+)\)")
+
+
 def cmp_c09(payload, impl, model):
     head, _, toks = payload.partition("|")
     toks = toks.split()
     ty = head.strip().split(") ", 2)[-1].strip() if head.strip().startswith("(env)") else None
     if ty is None or len(toks) != 1 or toks[0][0] not in "iuf" or not (ty in _INT_RANGES or ty in ("a", "f32", "f64")):
-        return None      # C09 looks at single numbers into numeric / untyped targets
+        # numbers inside containers: when both sides complete, every integer the target holds afterwards is the one the
+        # model holds at that place (the rest of the value is C13's business)
+        if impl.startswith("done") and model.startswith("done") and impl != model:
+            ni, nm = _NUMS.findall(impl), _NUMS.findall(model)
+            if ni != nm:
+                return viol("integers held after unmarshalling differ from the serialized ones: %s, expected %s" % (" ".join(ni[:12]), " ".join(nm[:12])))
+        return None      # otherwise C09 looks at single numbers into numeric / untyped targets
     tk = toks[0]
     if ty in _INT_RANGES:
         lo, hi = _INT_RANGES[ty]
